@@ -27,4 +27,9 @@ MUTANTS = [
     m("c16-undo-F9", "R3", SA, "                    if stage.n_iter == 0:\n                        # Nothing to sample, adapt or finalize in an empty stage\n                        continue\n", ""),
     m("c16-twin-guard-positive", None, SA, "                    if stage.n_iter == 0:\n                        # Nothing to sample, adapt or finalize in an empty stage\n                        continue\n", "                    if not stage.n_iter > 0:\n                        continue\n", twin=True),
     m("c16-twin-fractions", None, SG, "            n_init_fast_stage_iter = int(0.15 * n_warm_up_iter)", "            n_init_fast_stage_iter = int(0.2 * n_warm_up_iter)", twin=True),
+    m("c16-finalize-guard-all", "R2", SA, "                    if len(adapter_states) > 0:\n                        _finalize_adapters(", "                    if adapter_states and all(adapter_states.values()):\n                        _finalize_adapters("),
+    m("c16-finalize-only-first-transition", "R2", SA, "    for trans_key, adapter_states_list in adapter_states_dict.items():\n        for adapter_states, adapter in zip(", "    for trans_key, adapter_states_list in list(adapter_states_dict.items())[:1]:\n        for adapter_states, adapter in zip("),
+    m("c16-finalize-wrong-transition", "R2", SA, "            adapter.finalize(adapter_states, chain_states, transitions[trans_key], rngs)", "            adapter.finalize(adapter_states, chain_states, next(iter(transitions.values())), rngs)"),
+    m("c16-finalize-skip-fast", "R2", SA, "            adapter.finalize(adapter_states, chain_states, transitions[trans_key], rngs)", "            if not adapter.is_fast:\n                adapter.finalize(adapter_states, chain_states, transitions[trans_key], rngs)"),
+    m("c16-twin-finalize-guard-truthy", None, SA, "                    if len(adapter_states) > 0:\n                        _finalize_adapters(", "                    if adapter_states:\n                        _finalize_adapters(", twin=True),
 ]
